@@ -378,6 +378,9 @@ class Ops:
                 return Const(not t)
             if isinstance(v, (SetV, ListV)) and v.items is None and self.atoms_of(v):
                 return TV(kind="pybool", dtype="Bool", note="nonempty?" + "+".join(sorted(self.atoms_of(v))) + "|neg")
+            d = v.payload if isinstance(v, ObjV) and v.payload is not None else v
+            if isinstance(d, DictV) and d.items is None and isinstance(d.keys, (SetV, ListV)) and self.atoms_of(d.keys):
+                return TV(kind="pybool", dtype="Bool", note="nonempty?" + "+".join(sorted(self.atoms_of(d.keys))) + "|neg")
             tv = tv_of(v)
             if tv is not None:
                 return tv.but(kind="pybool" if tv.is_py else tv.kind, dtype="Bool", poly=None)
@@ -527,12 +530,30 @@ class Ops:
         if len(sc) == 1 and all(c["kind"] == "cmp" for c in others) and len(others) <= 1 and not isinstance(test_expr, (ast.BoolOp,)):
             neg = isinstance(test_expr, ast.UnaryOp) and isinstance(test_expr.op, ast.Not)
             op = sc[0]["op"]
+            # `len(X) == 0` / `!= 0` / `> 0`: the emptiness question about X, asked like `if X:` / `if not X:`
+            dp = sc[0].get("diff_poly")
+            if dp is not None and len(dp.terms) == 1:
+                (mono, coef), = dp.terms.items()
+                if len(mono) == 1 and mono[0][1] == 1 and coef in (1, -1) and str(mono[0][0]).startswith(("len[", "len*[")):
+                    sym = str(mono[0][0])
+                    atoms_txt = sym[sym.index("[") + 1:-1]
+                    if coef == 1 and op in ("Eq", "NotEq", "Gt", "LtE"):
+                        nonempty = op in ("NotEq", "Gt")
+                        return ("nonempty?" + atoms_txt, (not nonempty) ^ neg)
+                    if coef == -1 and op in ("Eq", "NotEq", "Lt", "GtE"):
+                        nonempty = op in ("NotEq", "Lt")
+                        return ("nonempty?" + atoms_txt, (not nonempty) ^ neg)
             canon = {"NotEq": ("Eq", True), "GtE": ("Lt", True), "LtE": ("Gt", True)}.get(op, (op, False))
             return (f"{canon[0]}:{sc[0]['diff']}", canon[1] ^ neg)
         if isinstance(val, TV) and val.note.startswith("nonempty?"):
             return (val.note.split("|")[0], val.note.endswith("|neg"))
         if isinstance(val, (SetV, ListV)) and val.items is None:
             at = sorted(self.atoms_of(val))
+            if at:
+                return ("nonempty?" + "+".join(at), False)
+        d = val.payload if isinstance(val, ObjV) and val.payload is not None else val
+        if isinstance(d, DictV) and d.items is None and isinstance(d.keys, (SetV, ListV)):
+            at = sorted(self.atoms_of(d.keys))
             if at:
                 return ("nonempty?" + "+".join(at), False)
         return None
